@@ -59,6 +59,10 @@ class Lin:
                     if out[t] == 0:
                         del out[t]
                 return (out, ca + s * cb)
+            if op == "<<" and H.lit_val(n["r"]) is not None and 0 <= H.lit_val(n["r"]) < 64:
+                a, ca = self.of(n["l"], depth)
+                m_ = 1 << H.lit_val(n["r"])
+                return ({t: c * m_ for t, c in a.items()}, ca * m_)
             if op == "*":
                 a, ca = self.of(n["l"], depth)
                 b, cb = self.of(n["r"], depth)
